@@ -1,5 +1,6 @@
 import Pyx12Verif.Props.C09
 import Pyx12Verif.Props.C09Walk
+import Pyx12Verif.Props.C09Found
 open Pyx12Verif.Ctx
 #print axioms run_parts
 #print axioms no_crash
@@ -24,3 +25,19 @@ open Pyx12Verif.Ctx
 #print axioms Pyx12Verif.CtxWalk.no_crash_generated
 #print axioms Pyx12Verif.CtxWalk.answers_consistent_multi
 #print axioms Pyx12Verif.CtxWalk.partition_generated_multi
+
+#print axioms Pyx12Verif.CtxWalk.walk_facts2
+#print axioms Pyx12Verif.CtxWalk.shapeUnamb_of_unambiguous
+#print axioms Pyx12Verif.CtxWalk.walk_none_lists
+#print axioms Pyx12Verif.CtxWalk.notfound_step
+#print axioms Pyx12Verif.CtxWalk.run_consistent_any
+#print axioms Pyx12Verif.CtxWalk.answers_consistent_of_found
+#print axioms Pyx12Verif.CtxWalk.answers_consistent_any
+#print axioms Pyx12Verif.CtxWalk.partition_located
+#print axioms Pyx12Verif.CtxWalk.instances_located
+#print axioms Pyx12Verif.CtxWalk.no_crash_located
+#print axioms Pyx12Verif.CtxWalk.tree_is_maximal_instance_located
+#print axioms Pyx12Verif.CtxWalk.plain_is_outside_located
+#print axioms Pyx12Verif.CtxWalk.tree_count_located
+#print axioms Pyx12Verif.CtxWalk.tree_shape_located
+#print axioms Pyx12Verif.CtxWalk.positions_carried_located
